@@ -63,7 +63,7 @@ def same_snapshot(a, b):
     return True
 
 
-def add_step(sym, pre_cells, new_cell, unified, versioned, md5=(False, False, False, False)):
+def add_step(sym, pre_cells, new_cell, unified, versioned, md5=(False, False, False, False), foreign=None):
     """inductive step: from any manifest satisfying the invariant, one add either is refused and changes nothing
     or keeps the invariant; for format >= 1.1 it is refused exactly when it would break the invariant"""
     im = Images()
@@ -84,7 +84,13 @@ def add_step(sym, pre_cells, new_cell, unified, versioned, md5=(False, False, Fa
         enforced = sym.or_(major > 1, sym.and_(major == 1, minor >= 1))
     else:
         enforced = True
-    new = make_image(sym, im, len(pre_cells), unified[len(pre_cells)], md5[len(pre_cells)])
+    owner = im
+    if foreign is not None:
+        # the image object was prepared for another manifest (e.g. a legacy one that is being migrated): what counts is the
+        # manifest it is added to
+        owner = Images()
+        owner.header.version = foreign
+    new = make_image(sym, owner, len(pre_cells), unified[len(pre_cells)], md5[len(pre_cells)])
     before = snapshot(im)
     collision = sym.or_(*[sym.and_(same_identity(sym, p, new), sym.not_(sym.same(p.checksums, new.checksums))) for p in pre])
     try:
@@ -221,6 +227,8 @@ def jobs(tier, seed):
     for cell2 in (0, 1, 2):
         for wu in (False, True):
             out.append({"harness": "load_collision", "params": {"cell2": cell2, "with_unified": wu}})
+    for fv in ("1.0", "0.9", "1.1"):
+        out.append({"harness": "add_step", "params": {"pre_cells": [0, 1], "new_cell": 2, "unified": [0, 0, 0, 0], "versioned": False, "foreign": fv}})
     for cell2 in (0, 1, 2):
         out.append({"harness": "load_onto_existing", "params": {"cell2": cell2, "with_unified": bool(cell2 % 2)}})
     for uc in (0, 1, 2, 3):
